@@ -42,6 +42,7 @@ def behaviour_to_schedule(beh):
     steps = []
     expected = []
     used_other = False
+    other_invs, released = set(), set()
     for label, st in beh[1:]:
         emit = st.get("emit", [])
         if not emit:
@@ -59,9 +60,18 @@ def behaviour_to_schedule(beh):
         elif e0["k"] == "rx" and e0["cls"] == "resp":
             steps.append({"at": t, "do": "rx", "r": 1, "ty": "NON", "code": 69, "mid": 9000 + len(steps), "tok": {"of": e0["q"]}, "ctxof": e0["q"]})
         elif e0["k"] == "rx" and e0["cls"] == "req":
-            con = st["hs"][e0["inv"] - 1]["due"] >= 0 if isinstance(st["hs"], list) else st["hs"][e0["inv"]]["due"] >= 0
-            steps.append({"at": t, "do": "rx", "r": 2, "ty": "CON" if con else "NON", "code": 1, "mid": 500 + e0["inv"], "tok": "b%d" % e0["inv"], "path": ["h", "1"]})
+            hrec = st["hs"][e0["inv"] - 1] if isinstance(st["hs"], list) else st["hs"][e0["inv"]]
+            con = hrec["due"] >= 0
+            if hrec.get("other"):
+                # a request read by the second context
+                other_invs.add(e0["inv"])
+                used_other = True
+                steps.append({"at": t, "do": "rx", "r": 2, "ty": "CON" if con else "NON", "code": 1, "mid": 600 + e0["inv"],
+                              "tok": "0b%02x" % e0["inv"], "path": ["h", "1"], "ctx": "other"})
+            else:
+                steps.append({"at": t, "do": "rx", "r": 2, "ty": "CON" if con else "NON", "code": 1, "mid": 500 + e0["inv"], "tok": "b%d" % e0["inv"], "path": ["h", "1"]})
         elif e0["k"] == "release":
+            released.add(e0["inv"])
             steps.append({"at": t, "do": "release", "inv": e0["inv"], "outcome": "ok"})
         elif e0["k"] == "shutdown":
             steps.append({"at": t, "do": "shutdown"})
@@ -74,6 +84,9 @@ def behaviour_to_schedule(beh):
     tmax = max([s["at"] for s in steps] + [0])
     for q in sorted(others - answered):
         steps.append({"at": tmax + 8, "do": "rx", "r": 1, "ty": "NON", "code": 69, "mid": 9900 + q, "tok": {"of": q}, "ctxof": q})
+    # ... and its handlers always finish
+    for inv in sorted(other_invs - released):
+        steps.append({"at": tmax + 8, "do": "release", "inv": inv, "outcome": "ok"})
     for s in steps:
         if "ctxof" in s:
             if s.pop("ctxof") in others:
@@ -85,6 +98,10 @@ def behaviour_to_schedule(beh):
         "nremotes": 2,
         "handlers": {"1": {"delay": None}},
         "other_context": True,
+        "other_handlers": {"1": {"delay": None}},
+        # the peers acknowledge separate confirmable responses at once (NSTART would hold the next one back)
+        "triggers": [{"on": {"tx": {"ty": "CON", "cls": "resp", "nth": nth}}, "delay": 1, "rx": {"ty": "ACK", "code": 0, "mid": "same"}}
+                     for nth in range(1, 9)],
         "steps": steps,
         "horizon": 8 * 1024,
     }, expected
@@ -182,6 +199,25 @@ def base_scenarios():
         ],
         handlers={"1": {"delay": 2600, "outcome": "ok"}},
         other=True,
+    )
+    S.append(
+        {
+            # the second context is a busy server: a confirmable request whose empty ACK is still pending, one
+            # that has been acknowledged and is still being rendered, a non-confirmable one
+            "name": "second-context-serving",
+            "tuning": dict(T), "mid0": 4000, "tok0": 20, "nremotes": 3,
+            "handlers": {"1": {"delay": 2600, "outcome": "ok"}},
+            "other_context": True,
+            "other_handlers": {"1": {"delay": 1500, "outcome": "ok"}, "2": {"delay": 60, "outcome": "ok"}},
+            "steps": [
+                {"at": 0, "do": "submit", "q": 1, "r": 1, "con": True, "f": 0.5},
+                {"at": 5, "do": "rx", "r": 2, "ty": "CON", "code": 1, "mid": 77, "tok": "c1", "path": ["h", "1"]},
+                {"at": 10, "do": "rx", "r": 2, "ty": "CON", "code": 1, "mid": 88, "tok": "d1", "path": ["h", "1"], "ctx": "other"},
+                {"at": 300, "do": "rx", "r": 3, "ty": "CON", "code": 1, "mid": 89, "tok": "d2", "path": ["h", "2"], "ctx": "other"},
+                {"at": 320, "do": "rx", "r": 1, "ty": "NON", "code": 1, "mid": 90, "tok": "d3", "path": ["h", "1"], "ctx": "other"},
+            ],
+            "triggers": [], "autoreply": [], "horizon": HORIZON,
+        }
     )
     mk(
         # a second request on the same (endpoint, token) while the first is still being rendered replaces it
